@@ -1,6 +1,6 @@
 //go:build verif
 
-package semver
+package cran
 
 // Machine-checked contracts for this package (checked by /verif/govc; see /verif/DESIGN.md).
 // This file contains comments only; it is compiled only under the build tag "verif".
@@ -8,10 +8,7 @@ package semver
 //@ func compareInt
 //@   comparator a ~ b                                     [C01]
 //@   ensures result == 0 ==> a == b                       [C01]
-//@   ensures result == (a < b ? -1 : (a > b ? 1 : 0))     [C03 C08]
-
-//@ func comparePrerelease
-//@   comparator a ~ b                                     [C01]
+//@   ensures result == (a < b ? -1 : (a > b ? 1 : 0))     [C01 C03]   // C01: Compare orders by length with the same function, which is transitive only for the standard order
 
 //@ func (*Version).Compare
 //@   comparator v ~ other                                 [C01]
